@@ -1639,7 +1639,8 @@ def Mandatory(cls, **_kwargs):
                                     cls.get_type_name(), const.MANDATORY_SUFFIX)
     kwargs.update(_kwargs)
     if issubclass(cls, Unicode):
-        kwargs.update(dict(min_len=1))
+        # mandatory text is not empty; a stricter lower bound stays
+        kwargs['min_len'] = max(1, kwargs.get('min_len', cls.Attributes.min_len))
 
     elif issubclass(cls, Array):
         # customize first: the member type must be replaced in the new array
